@@ -457,6 +457,25 @@ func c10Limiter(c *Ctx, allow *ssa.Function, limType *types.Named) {
 		}
 		for i, cv := range cands {
 			k := fmt.Sprintf("Allow return[%d]", i)
+			// a pass-through wrapper of the limiter (`return l.count(decision)`, which records statistics and returns its argument)
+			if wc, isW := cv.(*ssa.Call); isW {
+				if wf := wc.Call.StaticCallee(); wf != nil && InRepo(wf) && wf.Blocks != nil && wf.Signature.Results().Len() == 1 {
+					for ai, a := range wc.Call.Args {
+						if ai >= len(wf.Params) || !types.Identical(a.Type(), types.Typ[types.Bool]) {
+							continue
+						}
+						all := len(Returns(wf)) > 0
+						for _, r2 := range Returns(wf) {
+							if RetVals(r2)[0] != ssa.Value(wf.Params[ai]) {
+								all = false
+							}
+						}
+						if all {
+							cv = a
+						}
+					}
+				}
+			}
 			if k0, ok := cv.(*ssa.Const); ok {
 				c.Check(k0.Value != nil && k0.Value.String() == "false", "limiter-decision", k, p.InstrPos(r), "constant false (address kind refused)", "Allow returns constant true: unlimited")
 				continue
@@ -518,6 +537,14 @@ func c10Limiter(c *Ctx, allow *ssa.Function, limType *types.Named) {
 			for _, x := range lss {
 				if MethodIs(x.Call.StaticCallee(), "sync", "Map", "LoadOrStore") || helperLS[x] != nil {
 					ls = x
+				}
+			}
+			if ls == nil && badOrigin == "" && len(lss) > 0 {
+				// the hit path of `if v, ok := m.Load(key); ok { … }` in front of the LoadOrStore: same table, same key
+				for _, c2 := range Calls(allow) {
+					if cv2, isC := c2.(*ssa.Call); isC && MethodIs(cv2.Call.StaticCallee(), "sync", "Map", "LoadOrStore") && Render(cv2.Call.Args[0]) == Render(lss[0].Call.Args[0]) && Render(cv2.Call.Args[1]) == Render(lss[0].Call.Args[1]) {
+						ls = cv2
+					}
 				}
 			}
 			if ls == nil || badOrigin != "" {
@@ -590,6 +617,12 @@ func c10Limiter(c *Ctx, allow *ssa.Function, limType *types.Named) {
 				nv = Unwrap(hl.Call.Args[2]) // the candidate is created inside the bucket helper (its receiver is p0 there too)
 			}
 			okNew := false
+			// l.newBucket(): a method of the limiter whose only result is rate.NewLimiter(l.interval, l.burst)
+			if hc, ok := nv.(*ssa.Call); ok && hc.Call.StaticCallee() != nil && InRepo(hc.Call.StaticCallee()) && hc.Call.StaticCallee().Blocks != nil && len(hc.Call.Args) == 1 && Render(hc.Call.Args[0]) == "p0" {
+				if rets := Returns(hc.Call.StaticCallee()); len(rets) == 1 && len(RetVals(rets[0])) == 1 {
+					nv = Unwrap(RetVals(rets[0])[0])
+				}
+			}
 			if nc, ok := nv.(*ssa.Call); ok && FuncIs(nc.Call.StaticCallee(), "golang.org/x/time/rate", "NewLimiter") {
 				a0, a1 := Render(nc.Call.Args[0]), Render(nc.Call.Args[1])
 				okNew = a0 == "p0.interval" && a1 == "p0.burst"
